@@ -15,35 +15,16 @@ COQ_TARGETS = ['isa/IsaCheck.vo', 'props/C03.vo']
 
 # ---- known findings (proposed entries of known_findings.json), keyed by (alu, format, opcode)
 KNOWN_OPS = {
-    ('gcn3', 'SOP2', 1): 's_sub_u32 sets SCC on borrow but never clears it',
-    ('gcn3', 'SOP2', 2): 's_add_i32 writes the unsigned carry to SCC instead of signed overflow',
-    ('gcn3', 'SOP2', 4): 's_addc_u32 carry-out wrong when S0+S1+SCC = 2^32-1 or S1+SCC wraps',
-    ('gcn3', 'SOP2', 6): 's_min_i32 sets SCC when S0 wins but never clears it',
-    ('gcn3', 'SOP2', 7): 's_min_u32 sets SCC when S0 wins but never clears it',
-    ('gcn3', 'SOP2', 8): 's_max_i32 sets SCC when S0 wins but never clears it',
-    ('gcn3', 'SOP2', 9): 's_max_u32 sets SCC when S0 wins but never clears it',
-    ('gcn3', 'SOP2', 32): 's_ashr_i32 shifts by S1[7:0] instead of S1[4:0]',
-    ('gcn3', 'SOP2', 36): 's_mul_i32 sets SCC on overflow (manual: SCC unchanged)',
-    ('gcn3', 'SOP2', 38): 's_bfe_i32 does not sign-extend the extracted field',
-    ('gcn3', 'SOP1', 4): 's_not_b32 computes SCC from the 64-bit complement (always 1) and never clears it',
-    ('gcn3', 'SOP1', 28): 's_getpc_b64 returns next-PC + 4 (PC is already advanced by the compute unit)',
-    ('gcn3', 'SOPK', 2): 's_cmpk_eq_i32 compares only the low 16 bits of the register',
-    ('gcn3', 'SOPK', 3): 's_cmpk_lg_i32 compares only the low 16 bits of the register',
-    ('cdna3', 'SOP2', 38): 's_bfe_i32 loses the sign when offset+width > 32',
-    ('cdna3', 'SOP1', 4): 's_not_b32 computes SCC from the 64-bit complement (always 1) and never clears it',
-    ('cdna3', 'SOP1', 48): 's_abs_i32 sets SCC = (S0 < 0) instead of (D != 0)',
-    ('cdna3', 'SOPK', 0): 's_movk_i32 zero-extends the immediate',
-    ('cdna3', 'SOPK', 1): 's_cmovk_i32 zero-extends the immediate',
+    ('cdna3', 'SOP1', 48): 's_abs_i32 sets SCC = (S0 < 0) instead of (D != 0); the pinned test TestSOP1Opcode48SABSI32 asserts this',
 }
-# opcodes that are right on 32-bit operand values but use the 64-bit value ReadOperand
-# returns for vcc_lo / negative inline constants (count-0 reads)
+# opcodes that are right on 32-bit operand values but use all 64 bits of the value
+# ReadOperand returns for a negative inline constant (uint64(int64(-k)))
 KNOWN_WIDE = {
     ('gcn3', 'SOP2', 5), ('gcn3', 'SOP2', 12), ('gcn3', 'SOP2', 16), ('gcn3', 'SOP2', 30),
     ('cdna3', 'SOP2', 7), ('cdna3', 'SOP2', 9), ('cdna3', 'SOP2', 12), ('cdna3', 'SOP2', 37), ('cdna3', 'SOP2', 44),
 }
-WIDE_TEXT = 'a 32-bit scalar operation uses all 64 bits ReadOperand returns for vcc_lo / inline constants -1..-16'
-VCCHI_TEXT = 'vcc_hi as a 32-bit source operand is read as the whole VCC (the low half is used)'
-UNSUP_TEXT = 'exec_hi/vccz/execz as source or exec_lo/exec_hi as 32-bit destination panic ("Register type not supported")'
+WIDE_TEXT = 'a 32-bit scalar operation uses all 64 bits ReadOperand returns for an inline constant -1..-16'
+UNSUP_TEXT = 'vccz/execz as source operand panic ("Register type not supported")'
 
 SOP2_64 = {11, 13, 15, 17, 19, 21, 23, 25, 27, 29, 31, 33}
 SOP1_64 = {1, 28, 32, 33, 34, 35, 36, 37, 38, 39}
@@ -58,15 +39,12 @@ def classify(c):
     key = (c['alu'], c['fmt'], c['op'])
     srcs = [c['src0'], c['src1']] + ([c['dst']] if c['fmt'] == 'SOPK' and c['op'] in (2, 3, 15) else [])
     if c.get('panic'):
-        if any(s in (127, 251, 252) for s in srcs) or (c['dst'] in (126, 127) and not is64(c)) or \
-           (c['fmt'] == 'SOPK' and c['dst'] in (126, 127)):
+        if any(s in (251, 252) for s in srcs):
             return ('operand', 'unsupported'), UNSUP_TEXT
         return None
     if key in KNOWN_OPS:
         return key, KNOWN_OPS[key]
-    if not is64(c) and any(s == 107 for s in srcs):
-        return ('operand', 'vcc_hi'), VCCHI_TEXT
-    if not is64(c) and key in KNOWN_WIDE and any(s == 106 or 193 <= s <= 208 for s in srcs):
+    if not is64(c) and key in KNOWN_WIDE and any(193 <= s <= 208 for s in srcs):
         return ('wide',) + key, WIDE_TEXT
     return None
 
